@@ -12,6 +12,7 @@ package main
 
 import (
 	"fmt"
+	"runtime/debug"
 	"time"
 
 	"github.com/elk-language/elk/value"
@@ -113,22 +114,30 @@ func hsKind(u *universe) *setKind {
 type S = value.String
 
 func run(c *engine.Ctx) {
-	depth, capMax, maxStates := 5, 9, 60_000
+	mapParts, setParts := 4, 2
+	depth, setDepth, capMax, maxStates := 5, 5, 9, 60_000
 	initCaps := []int{0, 2, 5, 8}
 	if c.Thorough {
-		depth, capMax, maxStates = 7, 13, 400_000
+		mapParts, setParts = 8, 4
+		depth, setDepth, capMax, maxStates = 6, 7, 13, 1_000_000
 		initCaps = []int{0, 1, 2, 3, 5, 8}
 	}
 	// ---- generic *OfValue tables on colliding mixed-type keys
 	hm, hr, hs := hmKind(uMixed), hrKind(uMixed), hsKind(uMixed)
 	for _, ic := range initCaps {
 		ic := ic
-		c.Case(fmt.Sprintf("bfs/HashMapOfValue/cap%d", ic), func(r *engine.R) {
-			explore(r, newMapSys(hm, ic, capMax, c.Thorough), depth, maxStates)
-		})
-		c.Case(fmt.Sprintf("bfs/HashSetOfValue/cap%d", ic), func(r *engine.R) {
-			explore(r, newSetSys(hs, ic, capMax, c.Thorough), depth, maxStates)
-		})
+		for part := 0; part < mapParts; part++ {
+			part := part
+			c.Case(fmt.Sprintf("bfs/HashMapOfValue/cap%d/part%d", ic, part), func(r *engine.R) {
+				explore(r, newMapSys(hm, ic, capMax, c.Thorough), depth, maxStates, part, mapParts)
+			})
+		}
+		for part := 0; part < setParts; part++ {
+			part := part
+			c.Case(fmt.Sprintf("bfs/HashSetOfValue/cap%d/part%d", ic, part), func(r *engine.R) {
+				explore(r, newSetSys(hs, ic, capMax, c.Thorough), setDepth, maxStates, part, setParts)
+			})
+		}
 	}
 	// HashRecordOfValue is a conversion of HashMapOfValue whose functions delegate: one initial capacity per tier
 	// (thorough: three) checks the delegation; a failure shared with HashMapOfValue gets the HashMapOfValue signature.
@@ -145,7 +154,7 @@ func run(c *engine.Ctx) {
 			if !c.Thorough {
 				d = depth - 1
 			}
-			explore(r, s, d, maxStates)
+			explore(r, s, d, maxStates, 0, 1)
 		})
 	}
 	// ---- specialised native variants (Go maps underneath) on String keys / String values
@@ -160,20 +169,22 @@ func run(c *engine.Ctx) {
 	nkhr.peers = []*mapKind{nhr, hrS}
 	for _, k := range []*mapKind{nhm, nkhm, nhr, nkhr} {
 		k := k
-		c.Case("bfs/"+k.name, func(r *engine.R) { explore(r, newMapSys(k, 0, capMax, c.Thorough), depth+2, maxStates) })
+		c.Case("bfs/"+k.name, func(r *engine.R) { explore(r, newMapSys(k, 0, capMax, c.Thorough), depth+2, maxStates, 0, 1) })
 	}
 	// the generic tables with the specialised variants as arguments of == and + (interface paths)
 	hmS.peers = []*mapKind{nhm, nkhm}
 	hrS.peers = []*mapKind{nhr, nkhr}
-	c.Case("bfs/HashMapOfValue/string-keys-vs-native", func(r *engine.R) { explore(r, newMapSys(hmS, 0, capMax, c.Thorough), depth-1, maxStates) })
+	c.Case("bfs/HashMapOfValue/string-keys-vs-native", func(r *engine.R) { explore(r, newMapSys(hmS, 0, capMax, c.Thorough), depth-1, maxStates, 0, 1) })
 	c.Case("bfs/HashRecordOfValue/string-keys-vs-native", func(r *engine.R) {
-		explore(r, newMapSys(hrS, 0, capMax, c.Thorough), depth-1, maxStates)
+		s := newMapSys(hrS, 0, capMax, c.Thorough)
+		s.shadow = newMapSys(hmS, 0, capMax, c.Thorough)
+		explore(r, s, depth-1, maxStates, 0, 1)
 	})
 	nhs := &setKind{name: "NativeHashSet", u: uStr, fresh: func(n int) vm.HashSet { return vm.NewNativeHashSet[S](n) }}
 	nhs.peers = []*setKind{hsS}
 	hsS.peers = []*setKind{nhs}
-	c.Case("bfs/NativeHashSet", func(r *engine.R) { explore(r, newSetSys(nhs, 0, capMax, c.Thorough), depth+2, maxStates) })
-	c.Case("bfs/HashSetOfValue/string-keys-vs-native", func(r *engine.R) { explore(r, newSetSys(hsS, 0, capMax, c.Thorough), depth-1, maxStates) })
+	c.Case("bfs/NativeHashSet", func(r *engine.R) { explore(r, newSetSys(nhs, 0, capMax, c.Thorough), depth+2, maxStates, 0, 1) })
+	c.Case("bfs/HashSetOfValue/string-keys-vs-native", func(r *engine.R) { explore(r, newSetSys(hsS, 0, capMax, c.Thorough), depth-1, maxStates, 0, 1) })
 	// ---- Elk level
 	elkCases(c)
 }
@@ -186,11 +197,11 @@ func main() {
 			"specialised NativeHashMap / NativeKeyHashMap / NativeHashRecord / NativeKeyHashRecord / NativeHashSet variants; successor = replay of the shortest history on a fresh object + one operation " +
 			"out of {set(k,v) v in 1..2, delete(k), set_capacity(length|length+1), grow(1), copy_into / copy_table from 3 fixed maps, self=self+F, self=clone; sets: add, remove, union, intersection}; " +
 			"keys: 3 small Ints with equal hash residues modulo every capacity 1..15, a 4th such Int and a big Int only in the fixed argument maps, an Int whose home slot is adjacent, a String (reference keys are rebuilt on every use: equal under ==, distinct objects); " +
-			"states merged on the full slot array + Elements + OccupiedSlots + capacity; depth 5 (thorough 7); after every transition: counters vs slot array, every lookup/contains variant for every key, " +
+			"states merged on the full slot array + Elements + OccupiedSlots + capacity; depth 5 (thorough: maps and records 6, sets 7), each search split into 4 (sets 2; thorough 8 and 4) cases by the first operation; after every transition: counters vs slot array, every lookup/contains variant for every key, " +
 			"4 iteration APIs, == / =~ with 3 equal twins and 4 different twins in both directions, + / | / & with every fixed argument in both operand orders (also against the other implementations), clone, copy, " +
 			"and non-mutation by observers, all against a Go map. Elk level: every sequence of <= 3 (thorough 4) operations ([]=, + map literal, + record literal; sets: <<, push, append, remove, |, +, & as observer) " +
 			"on 2 initial literals of 7 collection flavours (Int keys -> generic tables, String keys -> native variants), observed after every step with length, [], contains_key, contains, contains_value, iteration count+fingerprint, ==. " +
-			"states = distinct internal states; transitions validated = transitions whose observers were all compared on the real object; non-trivial = distinct states / programs with at least one operation",
+			"states = sum over cases of the distinct internal states of the case; transitions validated = transitions whose observers were all compared on the real object; non-trivial = distinct states / programs with at least one operation",
 		Assume: []string{
 			"set_capacity is only called with capacity >= length (shrinking below the content is outside the API contract)",
 			"the reference model is Go's built-in map",
@@ -200,6 +211,7 @@ func main() {
 		CaseTimeout: 240 * time.Second,
 		Setup: func(c *engine.Ctx) {
 			elkrun.Init()
+			debug.SetGCPercent(400) // many short-lived objects per transition; 16 workers share the machine
 			th = vm.New()
 			initUniverses()
 		},
